@@ -21,7 +21,8 @@ package utils
 //@   ensures[C06:inv] brsOK(b)
 //@   ensures[C06:stream-prefix] forall(k, 0, r0, p[k] == rdStream[b.r][brsBase[b] + old(brsPos(b)) + k])
 //@   ensures[C06:position] brsPos(b) == old(brsPos(b)) + r0
-//@   ensures[C05:one-source-read] rdCalls[b.r] == old(rdCalls[b.r]) + 1
+//@   ensures[C06:no-premature-error] r1 != nil ==> b.readHead == b.writeHead
+//@   ensures[C05:at-most-one-source-read] rdCalls[b.r] <= old(rdCalls[b.r]) + 1
 //@   ensures[C05:returns-what-it-read] r0 >= rdPos[b.r] - old(rdPos[b.r])
 
 //@ func (*bufferedReadSeeker).Seek props(C06,C07)
